@@ -38,7 +38,7 @@ let kind_of_string = function
   | s -> failwith ("kind " ^ s)
 
 let run_io () =
-  let w = ref { kinds = []; wlinks = [] } and s = ref io_init and live = ref [] and fuel = i2n 20000 in
+  let w = ref { kinds = []; wlinks = []; wdlinks = [] } and s = ref io_init and live = ref [] and fuel = i2n 20000 in
   let dump () =
     let b = Buffer.create 200 in
     Buffer.add_string b (Printf.sprintf " | io %d %d " (n2i !s.nopen) (List.length !s.iol));
@@ -63,7 +63,7 @@ let run_io () =
         let kinds = List.map kind_of_string (String.split_on_char ',' ks) in
         let wl = if ls = "-" then [] else List.map (fun e -> match String.split_on_char '>' e with
                    | [a; b] -> (i2n (int_of_string a), i2n (int_of_string b)) | _ -> failwith "link") (String.split_on_char ',' ls) in
-        w := { kinds = kinds; wlinks = wl }; s := io_init; live := [];
+        w := { kinds = kinds; wlinks = wl; wdlinks = [] }; s := io_init; live := [];
         print_string ("world ok" ^ dump () ^ "\n")
     | ["open"; n; m] | ["close"; n; m] when false -> ignore (n, m)
     | ["open"; n; m] ->
